@@ -8,15 +8,19 @@ def jobs(tier):
         for n in (1, 2, 3, 4):
             J.append(job(alg, n, checks=ck))
         J.append(job(alg, 3, checks=ck, pres='list')); J.append(job(alg, 4, checks=ck, pres='list')); J.append(job(alg, 4, checks=ck, pres='dict'))
+    for alg in ('cdec', 'c23', 'c34'):
+        J.append(job(alg, 5, checks=ck)); J.append(job(alg, 6, checks=ck, order='desc'))
+        J.append(job(alg, 5, checks=ck, pres='list', order='desc'))
+    for alg in ('cdec', 'c23', 'c34'):
+        J.append(job(alg, 7, checks=ck, order='desc'))
     for alg in ('cdec', 'c23'):
-        J.append(job(alg, 5, checks=ck, order='desc'))
-    J.append(job('c34', 5, checks=ck, order='desc'))
+        J.append(job(alg, 8, checks=ck, order='desc'))
     if tier == 'thorough':
         for alg in ('cdec', 'c23'):
-            J.append(job(alg, 5, checks=ck)); J.append(job(alg, 6, checks=ck, order='desc')); J.append(job(alg, 7, checks=ck, order='desc'))
-        J.append(job('c34', 5, checks=ck)); J.append(job('c34', 6, checks=ck, order='desc'))
+            J.append(job(alg, 6, checks=ck)); J.append(job(alg, 9, checks=ck, order='desc', mandatory=False))
+        J.append(job('c34', 8, checks=ck, order='desc', mandatory=False)); J.append(job('c34', 6, checks=ck, mandatory=False))
     return J
 
 
 ASSUMPTIONS = ['S1 numpy shim', 'S2 exact arithmetic (thresholds binsize/2, binsize/3 as exact rationals)']
-OUTSIDE = ['more than 5 (quick) / 7 (thorough) items']
+OUTSIDE = ['more than 6-7 (quick) / 8 (thorough) items']
